@@ -425,7 +425,7 @@ def rand_tree(rnd, maxnodes, with_tfy=True, depth=0, counter=None, root=True):
     if kind == "M":
         return {"f": "M"}
     if kind == "D":
-        return {"f": "D", "name": rnd.choice(["d@1.0", "d@1.10", "e@2", "f@0.1", "n@1"])}
+        return {"f": "D", "name": rnd.choice(["d@1.0", "d@1.10", "e@2", "f@0.1", "n@1", "g@3"])}
     if kind == "R":
         return {"f": "R"}
     kids = []
